@@ -552,3 +552,192 @@ Proof.
   rewrite (step_object (pval f) _ _ [] (top_members_ok c msg attrs f Hts Da ltac:(lia))). reflexivity.
 Qed.
 End Rec2.
+
+(* ================= framing: no control byte in the line ================= *)
+Lemma noctl_lit b : 32 <= bz b -> noctl b.
+Proof. intros H. exact H. Qed.
+Ltac nl := apply noctl_lit; cbn; lia.
+
+Lemma join_noctl l : Forall (Forall noctl) l -> Forall noctl (join_with [x2c] l).
+Proof.
+  induction 1 as [|x l Hx Hl IH]; [constructor|].
+  rewrite join_commas. apply Forall_app. split; [exact Hx|].
+  clear IH. induction Hl as [|y l Hy Hl IH]; [constructor|]. rewrite commas_cons.
+  constructor; [nl|]. apply Forall_app. split; assumption.
+Qed.
+Lemma bracket_noctl l : Forall (Forall noctl) l -> Forall noctl (bracket l).
+Proof.
+  intros H. unfold bracket. constructor; [nl|]. apply Forall_app. split; [apply join_noctl; exact H|].
+  constructor; [nl|constructor].
+Qed.
+Lemma map_noctl {A} (f : A -> bytes) l : (forall x, In x l -> Forall noctl (f x)) -> Forall (Forall noctl) (map f l).
+Proof. intros H. apply Forall_forall. intros b Hb. apply in_map_iff in Hb. destruct Hb as (x & <- & Hx). apply H. exact Hx. Qed.
+Lemma dec_noctl z : Forall noctl (dec_of_Z z).
+Proof. apply plain_noctl. apply dec_of_Z_plain. Qed.
+Lemma bool_noctl b : Forall noctl (bool_text b).
+Proof. destruct b; cbn [bool_text]; repeat (constructor; [nl|]); constructor. Qed.
+Lemma wrap_noctl t : plain_b t = true -> Forall noctl (x22 :: t ++ [x22]).
+Proof.
+  intros H. constructor; [nl|]. apply Forall_app. split; [apply plain_noctl; exact H|]. constructor; [nl|constructor].
+Qed.
+Lemma keyed_noctl k body : Forall noctl body -> Forall noctl (json_quote k ++ x3a :: body).
+Proof. intros H. apply Forall_app. split; [apply json_quote_noctl|]. constructor; [nl|exact H]. Qed.
+
+Lemma braces_noctl l : Forall (Forall noctl) l -> Forall noctl (x7b :: join_with [x2c] l ++ [x7d]).
+Proof.
+  intros H. constructor; [nl|]. apply Forall_app. split; [apply join_noctl; exact H|]. constructor; [nl|constructor].
+Qed.
+
+Section Framing.
+Variable isprint : Z -> bool.
+Variable g : registry.
+Variables clr bg : Z.
+Notation ser := (ser_value isprint ShJSON clr bg).
+
+Lemma members_noctl items pfx :
+  (forall k x, In (A k x) items -> forall pfx', Forall noctl (ser pfx' x)) ->
+  Forall (Forall noctl) (members_of isprint ShJSON clr bg pfx items).
+Proof.
+  induction items as [|[k x|] t IH]; intros H; cbn [members_of].
+  - constructor.
+  - constructor.
+    + unfold key_part, dkey. rewrite <- app_assoc. cbn [app]. apply keyed_noctl. apply (H k x). left. reflexivity.
+    + apply IH. intros k' x' Hin. apply (H k' x'). right. exact Hin.
+  - apply IH. intros k' x' Hin. apply (H k' x'). right. exact Hin.
+Qed.
+
+Lemma ser_noctl : forall v, dom_value_b v = true -> forall pfx, Forall noctl (ser pfx v).
+Proof.
+  apply (value_nested_ind (fun v => dom_value_b v = true -> forall pfx, Forall noctl (ser pfx v))).
+  - intros v G D pfx.
+    destruct v; try discriminate G; cbn [ser_value quoted json_wrap time_text dom_value_b] in *;
+      try apply json_quote_noctl; try (apply wrap_noctl; exact D).
+    + repeat (constructor; [nl|]); constructor.
+    + constructor; [nl|]. apply keyed_noctl. apply Forall_app. split; [apply json_quote_noctl|]. constructor; [nl|constructor].
+    + apply bool_noctl.
+    + apply dec_noctl.
+    + apply wrap_noctl. apply dec_of_Z_plain.
+    + apply bracket_noctl. apply map_noctl. intros x _. apply json_quote_noctl.
+    + apply bracket_noctl. apply map_noctl. intros x _. apply bool_noctl.
+    + apply bracket_noctl. apply map_noctl. intros x _. apply dec_noctl.
+    + apply bracket_noctl. apply map_noctl. intros x _. apply dec_noctl.
+    + apply bracket_noctl. apply map_noctl. intros x Hx. apply wrap_noctl. rewrite forallb_forall in D. apply D. exact Hx.
+    + apply bracket_noctl. apply map_noctl. intros x _. apply json_quote_noctl.
+    + apply bracket_noctl. apply map_noctl. intros x Hx. apply wrap_noctl. rewrite forallb_forall in D. apply D. exact Hx.
+  - intros items IH D pfx. rewrite dom_group in D. rewrite ser_group. unfold render_members.
+    apply braces_noctl. apply members_noctl. intros k x Hin pfx'.
+    rewrite Forall_forall in IH. apply (IH _ Hin). exact (dom_attrs_in _ _ _ D Hin).
+Qed.
+End Framing.
+
+Section Framing2.
+Variable isprint : Z -> bool.
+Variable g : registry.
+
+Lemma top_members_noctl c msg attrs : plain_b (e_ts c) = true -> dom_attrs_b attrs = true ->
+  Forall (Forall noctl) (top_members isprint g c msg attrs).
+Proof.
+  intros Hts D. unfold top_members. constructor.
+  { unfold time_member. apply keyed_noctl. apply wrap_noctl. exact Hts. }
+  apply Forall_app. split.
+  { destruct (e_name c); cbn [name_members]; [constructor|]. constructor; [|constructor]. apply keyed_noctl. apply json_quote_noctl. }
+  constructor. { apply keyed_noctl. apply json_quote_noctl. }
+  constructor. { apply keyed_noctl. apply json_quote_noctl. }
+  apply Forall_app. split.
+  - apply members_noctl. intros k x Hin pfx'. apply ser_noctl.
+    exact (dom_attrs_in _ _ _ (norm_attrs_dom _ D) Hin).
+  - destruct (e_caller c) as [[[file line] fn]|]; cbn [caller_members]; [|constructor].
+    constructor; [|constructor]. apply keyed_noctl. unfold caller_body. apply braces_noctl.
+    constructor; [apply keyed_noctl; apply json_quote_noctl|].
+    constructor; [apply keyed_noctl; apply dec_noctl|].
+    constructor; [apply keyed_noctl; apply json_quote_noctl|constructor].
+Qed.
+
+(* every byte before the final newline is >= 0x20: one line, whatever the input *)
+Lemma record_one_line c msg attrs out :
+  dom_cfg_b c = true -> dom_attrs_b attrs = true ->
+  encode isprint g c msg attrs = Some out ->
+  exists body, out = body ++ [x0a] /\ Forall noctl body.
+Proof.
+  intros Dc Da He. unfold dom_cfg_b in Dc. apply andb_prop in Dc as [Hm Hts].
+  assert (Hm' : e_mode c = ShJSON) by (destruct (e_mode c); try discriminate; reflexivity).
+  destruct (blank_print c msg) eqn:Hb.
+  - unfold encode in He. unfold blank_print in Hb. rewrite Hb in He. exists []. split; [cbn [app]; congruence|constructor].
+  - rewrite (encode_shape isprint g c msg attrs Hm' Hb) in He.
+    exists (x7b :: join_with [x2c] (top_members isprint g c msg attrs) ++ [x7d]). split; [congruence|].
+    apply braces_noctl. apply top_members_noctl; assumption.
+Qed.
+
+Lemma noctl_no_lf body : Forall noctl body -> ~ In x0a body.
+Proof. intros H Hin. rewrite Forall_forall in H. specialize (H _ Hin). unfold noctl in H. cbn in H. lia. Qed.
+End Framing2.
+
+(* ================= member names ================= *)
+Lemma jmembers_names l : map fst (jmembers l) = map fixu (attr_keys l).
+Proof. induction l as [|[k x|] t IH]; cbn [jmembers attr_keys map fst]; [reflexivity| |exact IH]. rewrite IH. reflexivity. Qed.
+
+Lemma json_members_names g c msg attrs : map fst (json_members g c msg attrs) = member_names c attrs.
+Proof.
+  unfold json_members, member_names. cbn [map fst]. f_equal. rewrite map_app. cbn [map fst].
+  rewrite map_app, jmembers_names. f_equal.
+  - destruct (e_name c); reflexivity.
+  - f_equal. f_equal. f_equal. destruct (e_caller c) as [[[file line] fn]|]; reflexivity.
+Qed.
+
+(* ================= key order at every level ================= *)
+Inductive levels_strict : list attr -> Prop :=
+| LS l : strictly l -> (forall k items, In (A k (VGroup items)) l -> levels_strict items) -> levels_strict l.
+
+Lemma norm_value_levels : forall v, match norm_value v with VGroup its => levels_strict its | _ => True end.
+Proof.
+  apply (value_nested_ind (fun v => match norm_value v with VGroup its => levels_strict its | _ => True end)).
+  - intros v G. rewrite norm_leaf by exact G. destruct v; try exact I. discriminate G.
+  - intros items IH. rewrite norm_group. constructor; [apply sort_dedupe_strict|].
+    intros k its Hin. destruct (norm_in _ _ _ Hin) as (x0 & Hin0 & E).
+    rewrite Forall_forall in IH. pose proof (IH _ Hin0) as H. unfold on_attr in H. cbv beta iota in H.
+    rewrite <- E in H. exact H.
+Qed.
+
+Lemma norm_attrs_levels attrs : levels_strict (norm_attrs attrs).
+Proof.
+  unfold norm_attrs. constructor; [apply sort_dedupe_strict|].
+  intros k its Hin. destruct (norm_in _ _ _ Hin) as (x0 & Hin0 & E).
+  pose proof (norm_value_levels x0) as H. rewrite <- E in H. exact H.
+Qed.
+
+Lemma attr_keys_akey k l : In k (attr_keys l) -> In (Some k) (map akey l).
+Proof.
+  induction l as [|[k' x|] t IH]; cbn [attr_keys map akey]; intros H; [exact H| |right; apply IH; exact H].
+  destruct H as [->|H]; [left; reflexivity|right; apply IH; exact H].
+Qed.
+Lemma strictly_keys_nodup l : strictly l -> NoDup (attr_keys l).
+Proof.
+  intros Hs. apply strictly_nodup in Hs. induction l as [|[k x|] t IH]; cbn [attr_keys map akey] in *.
+  - constructor.
+  - inversion Hs as [|? ? Hn Hd]; subst. constructor; [|apply IH; exact Hd].
+    intros Hin. apply Hn. apply attr_keys_akey. exact Hin.
+  - inversion Hs as [|? ? Hn Hd]; subst. apply IH. exact Hd.
+Qed.
+
+(* ascending: every key is smaller than every later key of the same level *)
+Fixpoint keys_ascending (ks : list bytes) : Prop :=
+  match ks with
+  | [] => True
+  | k :: t => (forall k', In k' t -> bytes_ltb k k' = true) /\ keys_ascending t
+  end.
+Lemma attr_keys_in k l : In k (attr_keys l) -> exists x, In (A k x) l.
+Proof.
+  induction l as [|[k' x|] t IH]; cbn [attr_keys]; intros H; [destruct H| |].
+  - destruct H as [->|H]; [exists x; left; reflexivity|]. destruct (IH H) as [x' Hx]. exists x'. right. exact Hx.
+  - destruct (IH H) as [x' Hx]. exists x'. right. exact Hx.
+Qed.
+Lemma strictly_tail x l : strictly (x :: l) -> strictly l.
+Proof. intros H. inversion H; subst; [constructor|assumption]. Qed.
+Lemma strictly_keys_ascending l : strictly l -> keys_ascending (attr_keys l).
+Proof.
+  induction l as [|[k x|] t IH]; intros Hs; cbn [attr_keys keys_ascending]; [exact I| |].
+  - split; [|apply IH; eapply strictly_tail; exact Hs].
+    intros k' Hin. destruct (attr_keys_in _ _ Hin) as [x' Hx'].
+    exact (strictly_head_lt _ _ Hs _ Hx').
+  - apply IH. eapply strictly_tail. exact Hs.
+Qed.
